@@ -74,6 +74,23 @@ Verdict(e, menu) ==
                       ELSE IF c.k # "val" THEN (IF e.out = "ok" THEN "missed_overflow" ELSE "wrong_reaction")
                       ELSE IF e.out # "ok" THEN "false_overflow" ELSE "silently_wrong"),
                nt |-> TRUE, cls |-> cls]
+      [] e.e = "StFromFlt" ->
+           LET td == menu[e.d]  f == e.x
+               xv == <<IF f.n = 1 THEN Neg(FMag(f)) ELSE FMag(f), f.e>>           \* the double, exactly
+               all == [r \in 1..NR |-> J(e.all[r])]
+               c == ConvertTo(xv, td)
+               lossy == f.e < TExp(td) /\ ~IsZero(ModPow2(FMag(f), TExp(td) - f.e))
+               cls == <<"StFromFlt", OverflowOf(td), RoundingOf(td), IF c.k # "val" THEN "overflow" ELSE "in_range",
+                        IF lossy THEN (IF f.n = 1 THEN "lossy_neg" ELSE "lossy_pos") ELSE "exact">>
+           IN [d |-> (IF J(e.before) # regs[e.d] THEN "state_mismatch"
+                      ELSE IF MUbOut(e.out) THEN "ub"
+                      ELSE IF e.out = "unreachable" THEN "unreachable"
+                      ELSE IF \E r \in 1..NR : r # e.d /\ all[r] # regs[r] THEN "other_register_changed"
+                      ELSE IF all[e.d] # J(e.after) THEN "bad_event"
+                      ELSE IF StoreOK(xv, td, J(e.before), J(e.after), e.out) THEN "ok"
+                      ELSE IF c.k # "val" THEN (IF e.out = "ok" THEN "missed_overflow" ELSE "wrong_reaction")
+                      ELSE IF e.out # "ok" THEN "false_overflow" ELSE "silently_wrong"),
+               nt |-> TRUE, cls |-> cls]
       [] OTHER -> [d |-> "unknown_event", nt |-> FALSE, cls |-> <<e.e>>]
 
 \* For a rejected line: does it equal what the unchanged library is known to do (candidate known finding)?
@@ -95,7 +112,7 @@ AsCodedM(e, menu) ==
 NextRegs(e) ==
     CASE e.e = "StReset" -> ZeroRegs
       [] e.e = "StLoad" -> [regs EXCEPT ![e.r] = J(e.v)]
-      [] e.e \in {"StStep", "StFromInt", "StCmp", "StToFlt"} -> [r \in 1..NR |-> J(e.all[r])]      \* re-synchronise from the recorded state
+      [] e.e \in {"StStep", "StFromInt", "StFromFlt", "StCmp", "StToFlt"} -> [r \in 1..NR |-> J(e.all[r])]      \* re-synchronise from the recorded state
       [] OTHER -> regs
 
 Init == l = 1 /\ regs = ZeroRegs
